@@ -74,6 +74,8 @@ type staleUse struct {
 }
 
 type accessEvent struct {
+	site       int
+	atomic     bool
 	inst, slot string
 	write      bool
 	held       Mode
